@@ -72,7 +72,9 @@ class Ctx:
         sim = self.sim
         nw = sim.network
         q = sorted((ts, e.event_type, getattr(getattr(e, "ev", None), "session_id", None)) for ts, e in sim.event_queue.queue)
-        parts = [sim.iteration, sim.pilot_signals.shape, sim.pilot_signals.tobytes(), sim.charging_rates.tobytes(),
+        st_ = sim.start
+        parts = [(st_.isoformat(), None if st_.utcoffset() is None else st_.utcoffset().total_seconds()), sim.period, sim.max_recompute,
+                 sim.iteration, sim.pilot_signals.shape, sim.pilot_signals.tobytes(), sim.charging_rates.tobytes(),
                  float(sim.peak), q, len(sim.event_history), sorted(sim.ev_history.keys()),
                  None if sim.schedule_history is None else sorted(sim.schedule_history.keys()),
                  [self.station_state(s) for s in nw.station_ids],
